@@ -193,6 +193,7 @@ FUNCS = [
     ("rig/machine_control/scp_connection.py", "SCPConnection.read.packets",
      ["int", "ignored", "buffer_size=int", "x=int", "y=int", "p=int", "address=int"],
      "exc:gen:int,int,int,int,int,int,int"),
+    ("rig/machine_control/boot.py", "boot_packet", ["ignored", "int", "int", "int", "int", "bytes"], "exc:ev:none"),
     ("rig/machine_control/packets.py", "SDPPacket.packed_data", [SDP_OBJ], "bytes"),
     ("rig/machine_control/packets.py", "SDPPacket.bytestring", [SDP_OBJ], "exc:bytes"),
     ("rig/machine_control/packets.py", "SCPPacket.packed_data", [SCP_OBJ], "exc:bytes"),
@@ -230,7 +231,7 @@ TRANSPARENT_DECORATORS = ("use_contextual_arguments",)
 PAIR_DICTS = {"address_length_dtype": ("Rig.Gen.Scp.dtypeTable", 4, 4)}
 # calls recorded as events in functions declared `ev:`: method name -> (argument kinds or None = arguments not
 # modelled, type of the result or None); the receiver is `self`, an attribute chain of `self` or a module
-EVENT_CALLS = {"warn": (None, None), "_perform_read": (("int", "int"), "bytes"), "_perform_write": (("int", "bytes"), None)}
+EVENT_CALLS = {"send": (("bytes",), None), "warn": (None, None), "_perform_read": (("int", "int"), "bytes"), "_perform_write": (("int", "bytes"), None)}
 # module-level dicts from IntEnum members to IntEnum members, regenerated by another translator module as
 # association lists `List (Nat × Nat)`: `D[k]` raises KeyError when absent
 KEY_DICTS = {"signal_types": "Rig.Gen.LoadSig.signalTypes", "diagnostic_signal_types": "Rig.Gen.LoadSig.diagSignalTypes"}
@@ -788,6 +789,13 @@ class Tr(object):
         return None
 
     def e(self, n):
+        if isinstance(n, ast.Subscript) and isinstance(n.slice, ast.Constant) and isinstance(n.slice.value, int) \
+                and isinstance(n.value, ast.Call) and self.struct_call(n.value) is not None \
+                and self.struct_call(n.value)[0] != "pack":
+            t, n_vals = self.struct_expr(n.value)
+            if not (0 <= n.slice.value < n_vals):
+                raise NotImplementedError("index %d of %d unpacked values" % (n.slice.value, n_vals))
+            return "(%s.getD %d 0)" % (t, n.slice.value)
         if self.struct_call(n) is not None:
             if self.struct_call(n)[0] != "pack":
                 raise NotImplementedError("struct.unpack outside a tuple assignment")
@@ -1481,8 +1489,10 @@ class Tr(object):
                 self.bind(names, [vty])
             else:
                 cs = components(vty)
-                if len(cs) != len(names) or any(c != "Int" for c in cs):
+                if len(cs) != len(names) or (not isinstance(s.value, ast.Tuple) and any(c != "Int" for c in cs)):
                     raise NotImplementedError("unpacking %s into %d names" % (vty, len(names)))
+                if isinstance(s.value, ast.Tuple):
+                    cs = [self.tyof(x) for x in s.value.elts]
                 self.bind(names, cs)
             text = "%slet %s%s := %s\n" % (pad, pat, ty, val)
             return self.seq(pad, text, rest, ind, tail)
